@@ -43,7 +43,7 @@ def plan(ctx):
     cases += [("history", i) for i in range(60 if t else 9)]
     cases += [("paths", i) for i in range(40 if t else 6)]
     cases += [("mpool", i) for i in range(10 if t else 2)]
-    cases += [("rewrite", i) for i in range(12 if t else 4)]
+    cases += [("rewrite", i) for i in range(14 if t else 6)]
     return cases
 
 
@@ -653,7 +653,7 @@ def rewrite_case(ctx, g):
     variants.append(("other-rows", libC, None))
     libD, unitsD = reexpressed(libC)
     variants.append(("other-rows re-expressed", libD, unitsD))
-    order = [0, 1, 0, 2, 3, 1][: (6 if ctx.thorough else 4)]
+    order = [0, 1, 2, 0, 3, 1][: (6 if ctx.thorough else 4)]
     rel = "a cache file re-written under the same name is read as its current content, whatever was read from that name before"
     with hl.Scratch("c05rw") as sc:
         j = pr.joker(rng=np.random.default_rng(hl.seed_of(rng)))
@@ -677,6 +677,51 @@ def rewrite_case(ctx, g):
                               dict(lls=got[:8]), dict(lls=want[:8]),
                               "marginal ln-likelihood through a cache file must not depend on what was read from the same file "
                               "name earlier (call history)", tags=dict(relation="rewrite", content=name))
+                return
+            # the samplers on the same name, with the log-probabilities attached: every column of the returned table
+            # (incl. ln_prior / ln_likelihood, which are read back from the file) must be what the file holds NOW
+            route = str(rng.choice(["rejection", "iterative", "none"], p=[0.5, 0.4, 0.1]))
+            if route == "none":
+                continue
+            sd = hl.seed_of(rng)
+            kw = dict(return_logprobs=True)
+            if rng.random() < 0.4:
+                kw["n_linear_samples"] = 2
+            if rng.random() < 0.3:
+                kw["randomize_prior_order"] = True
+
+            def call(jk, path):
+                if route == "rejection":
+                    return jk.rejection_sample(pr.data, path, n_batches=nb, **kw)
+                return jk.iterative_rejection_sample(pr.data, path, n_requested_samples=int(max(1, N // 4)),
+                                                     init_batch_size=int(max(2, N // 3)), **kw)
+            try:
+                got_s = call(pr.joker(rng=np.random.default_rng(sd)), same)
+                want_s = call(pr.joker(rng=np.random.default_rng(sd)), fresh_name)
+            except Exception as e:
+                raise core.Infra(f"rewrite: sampler call failed: {e!r}")
+            ctx.count(f"rewrite:sampler:{route}")
+            if step > 0:
+                ctx.count("rewrite:sampler-after-rewrite")
+            bad = None
+            if got_s.tbl.colnames != want_s.tbl.colnames or len(got_s) != len(want_s):
+                bad = f"columns/rows {got_s.tbl.colnames} x {len(got_s)} vs {want_s.tbl.colnames} x {len(want_s)}"
+            else:
+                for nm in want_s.tbl.colnames:
+                    a, b = got_s[nm], want_s[nm]
+                    if getattr(a, "unit", None) != getattr(b, "unit", None) or not same_bits(np.asarray(getattr(a, "value", a)),
+                                                                                             np.asarray(getattr(b, "value", b))):
+                        bad = f"column {nm} differs (first values {np.asarray(getattr(a, 'value', a))[:3]} vs {np.asarray(getattr(b, 'value', b))[:3]})"
+                        break
+            ctx.evaluated(rel, ("rewrite-sampler", g["index"], step) if step > 0 else None)
+            if bad is not None:
+                ctx.violation(rel, g, dict(step=step, order=[variants[k][0] for k in order[: step + 1]], units=units, N=N, n_batches=nb,
+                                           sampler=route, options=kw, seed=sd,
+                                           problem=dict(p=pr.p, q=pr.q, K=pr.desc["K"]["kind"])),
+                              dict(rows=len(got_s)), dict(rows=len(want_s)),
+                              f"{route} sampling (return_logprobs) through a cache file re-written under the same name must equal "
+                              "the same call on the same content under a never-used name (equal seeds): " + bad,
+                              tags=dict(relation="rewrite-sampler", content=name, sampler=route))
                 return
 
 
@@ -719,5 +764,6 @@ def post(ctx):
     ctx.require("in-memory vs cache accepted-set comparisons", c["paths:rejection:mem"] + c["paths:iterative:mem"], 2)
     ctx.require("iterative cases needing >= 2 rounds", c["paths:iterative-multi-round"], 2)
     ctx.require("same-name cache file re-written in other units between calls", c["rewrite:unit-change"], 4)
+    ctx.require("sampler with log-probabilities on a re-written cache file", c["rewrite:sampler-after-rewrite"], 6)
     ctx.require("multi-process marginal calls", c["mpool:marginal-calls"], 6)
     ctx.require("multi-process accepted-set comparisons", c["mpool:accepted-set-comparisons"], 2)
